@@ -4,13 +4,25 @@ Reference monitor on tools.project / extrapolate / topoints, the stress evaluato
 views hand to pyvista, the job's export functions and tools.force / moment: every result is compared with its definition
 written out with numpy (per-cell quadrature means, P F^T, sums over boundary points, ...).
 """
+import copy
+import warnings
+import zlib
+
 import numpy as np
 
 from .. import gen
 from ..util import Poly, maxabs, monomials_tensor, monomials_total, rng_for
-from . import C01
 
 VOIGT = [(0, 0), (1, 1), (2, 2), (0, 1), (1, 2), (0, 2)]
+VOIGT2 = [(0, 0), (1, 1), (0, 1)]
+EPS = float(np.finfo(float).eps)
+# values of tensor order 3 and 4 (e.g. a projected elasticity tensor): "reverse the first two axes" and "reverse all tensor axes",
+# "(size, q, c)" and "(*shape, q, c)" only differ from order 3 on; all axis lengths pairwise different where possible
+HIGH = ((2, 3, 4), (2, 3, 2, 3))
+MATS = ["NeoHooke", "NeoHookeCompressible", "Yeoh(tensortrax)", "MooneyRivlin(jax)", "OgdenRoxburgh", "LinearElasticLargeStrain"]
+# length units (a body of metres, micrometres, hundreds of metres) and moduli (MPa-like, Pa, a very soft gel in MPa) of the stress cases
+LENGTHS = (1.0, 3e-6, 250.0)
+MODULI = (1.0, 2e9, 3e-7)
 
 
 def fe_function(rng, reg, mesh, fam, shape):
@@ -18,11 +30,85 @@ def fe_function(rng, reg, mesh, fam, shape):
     import felupe as fem
     size = int(np.prod(shape)) if shape else 1
     vals = rng.standard_normal((mesh.npoints, size))
-    if gen.FAMILIES[fam].get("mini"):
+    if gen.FAMILIES.get(fam, {}).get("mini"):
         vals[mesh.cells[:, -1]] *= 0.1
     fld = fem.Field(reg, dim=size, values=vals)
     vq = fld.interpolate()  # (size, q, c)
     return vals.reshape(mesh.npoints, *shape), vq.reshape(*shape, *vq.shape[1:])
+
+
+def attached_cells(mesh):
+    """Number of cells attached to every point, counted with a loop over the connectivity."""
+    cnt = np.zeros(mesh.npoints)
+    for cell in mesh.cells:
+        for pnt in cell:
+            cnt[pnt] += 1
+    return cnt
+
+
+def naive_points(tool, vq, reg):
+    """What project / extrapolate / topoints are documented to return for quadrature data (*shape, q, c), written out with loops over
+    the cells and dense algebra: the L2 projection on the region's space (mass matrix and right-hand side summed point by point,
+    dense solve), the collocation solve per cell (the multilinear field of a Gauss-Legendre cell that takes the given values at the
+    quadrature points) averaged over the attached cells, the q-th value moved to the q-th point of the cell and averaged. Only the
+    region's shape-function values at its quadrature points (judged by C04) and its dV are taken from the library. Rows of points
+    without cells are zero."""
+    mesh = reg.mesh
+    shape = vq.shape[:-2]
+    nq, nc = vq.shape[-2:]
+    npc = mesh.cells.shape[1]
+    h = np.asarray(reg.h)
+    h = h[..., 0] if h.ndim == 3 else h  # (a, q)
+    cnt = attached_cells(mesh)
+    has = cnt > 0
+    ex = (slice(None), *([None] * len(shape)))
+    out = np.zeros((mesh.npoints, *shape))
+    if tool == "project":
+        dV = np.broadcast_to(reg.dV, (nq, nc))
+        M = np.zeros((mesh.npoints, mesh.npoints))
+        b = np.zeros((mesh.npoints, *shape))
+        for c, cell in enumerate(mesh.cells):
+            for q in range(nq):
+                M[np.ix_(cell, cell)] += np.outer(h[:, q], h[:, q]) * dV[q, c]
+                b[cell] += h[:, q][ex] * vq[..., q, c][None] * dV[q, c]
+        ix = np.flatnonzero(has)
+        out[ix] = np.linalg.solve(M[np.ix_(ix, ix)], b[ix].reshape(len(ix), -1)).reshape(len(ix), *shape)
+        return out
+    if tool == "extrapolate":
+        Hinv = np.linalg.inv(h.T)  # value at quadrature point q = sum_a h[a, q] v_a
+        percell = [np.tensordot(Hinv, np.moveaxis(vq[..., c], -1, 0), 1) for c in range(nc)]
+    else:
+        percell = [np.moveaxis(vq[..., :npc, c], -1, 0) for c in range(nc)]
+    for c, cell in enumerate(mesh.cells):
+        for a, pnt in enumerate(cell):
+            out[pnt] += percell[c][a]
+    out[has] /= cnt[has][ex]
+    return out
+
+
+def linear_tensor_clauses(run, rng, reg, mesh, label, shapes, unit, cfg):
+    """extrapolate() on Gauss-Legendre cells with three points per axis (bi/tri-quadratic templates, RegionLagrange(2)) and on any
+    other one with an exact collocation: a tensor-valued field that is linear in the coordinates (a member of every isoparametric
+    space, multilinear on any cell shape) is recovered at the points, averaged or per cell on the disconnected mesh."""
+    import felupe as fem
+    X = mesh.points
+    Xn = (X - X.mean(0)) / float(np.ptp(X, axis=0).max())  # in units of the body
+    nc, npc = mesh.cells.shape
+    for shape in shapes:
+        size = int(np.prod(shape))
+        nodal = 1.0 + np.tensordot(Xn, rng.standard_normal((X.shape[1], *shape)), 1)
+        vq = fem.Field(reg, dim=size, values=nodal.reshape(-1, size)).interpolate()
+        vq = vq.reshape(*shape, *vq.shape[1:])
+        got = fem.tools.extrapolate(vq, reg)
+        run.compare("post.extrapolate", "template=%s clause=reproduces-linear-tensor-field" % label, maxabs(got.reshape(nodal.shape) - nodal) / maxabs(nodal), 1e-11,
+                    "extrapolate() does not reproduce a tensor-valued field that is linear in the coordinates (%s)" % label, unit=unit,
+                    config=(*cfg, "linear-tensor", shape))
+        got = fem.tools.extrapolate(vq, reg, average=False).reshape(nc, npc, *shape)
+        run.compare("post.extrapolate", "template=%s clause=linear-tensor-field,average=False" % label, maxabs(got - nodal[mesh.cells]) / maxabs(nodal), 1e-11,
+                    "extrapolate(average=False) does not return the values of a linear tensor field at the points of every cell (%s)" % label,
+                    unit=unit + ":average=False", config=(*cfg, "linear-tensor", "average=False", shape))
+        if len(shape) > 2:
+            run.units["extrapolate:tensor-order:%d" % len(shape)] += 1
 
 
 def case_project(fam, rep):
@@ -40,7 +126,7 @@ def case_project(fam, rep):
             reg = gen.make_region(fam, mesh, quadrature=fem.TetrahedronQuadrature(order=5))
         else:
             reg = gen.make_region(fam, mesh)
-        for shape in ((), (3,), (2, 3)):
+        for shape in ((), (3,), (2, 3), HIGH[(rep + len(fam)) % 2]):
             nodal, vq = fe_function(rng, reg, mesh, fam, shape)
             got = fem.project(vq, reg)
             run.compare("post.project", "template=%s clause=reproduces-fe-function" % fam, maxabs(got.reshape(nodal.shape) - nodal) / maxabs(nodal), 1e-10,
@@ -57,6 +143,8 @@ def case_project(fam, rep):
             i1 = (back * dV).sum((-2, -1))
             run.compare("post.project", "template=%s clause=integral-preserving" % fam, maxabs(i1 - i0) / max(maxabs(np.abs(data) * dV).sum() if False else float((np.abs(data) * dV).sum()), 1e-300),
                         1e-11, "project() does not preserve the volume integral (%s)" % fam, unit="project:integral:" + fam, config=(fam, "integral", shape))
+            if len(shape) > 2:
+                run.units["project:tensor-order:%d" % len(shape)] += 1
     return fn
 
 
@@ -71,7 +159,7 @@ def case_flags(fam, rep):
         nq, nc, npc = reg.quadrature.npoints, mesh.ncells, mesh.cells.shape[1]
         w = reg.quadrature.weights
         mon = "post.flags"
-        for shape in ((), (2, 3), (3,)):
+        for shape in ((), (2, 3), (3,), HIGH[(rep + len(fam)) % 2]):
             nodal, vq = fe_function(rng, reg, mesh, fam, shape)
             percell = nodal[mesh.cells]  # (c, a, *shape)
             linear = fam in ("quad", "hexahedron")
@@ -121,6 +209,11 @@ def case_flags(fam, rep):
                 i0, i1 = (data * dVw).sum((-2, -1)), (back * dVw).sum((-2, -1))
                 run.compare(mon, "tool=project template=%s clause=dV-argument" % fam, maxabs(i1 - i0) / float((np.abs(data) * dVw).sum()), 1e-11,
                             "project(dV=w) does not preserve the integral with respect to the given measure", unit="flags:project:dV", config=(fam, "project", "dV", shape))
+            if len(shape) > 2:
+                run.units["flags:tensor-order:%d" % len(shape)] += 1
+        # --- three Gauss points per axis: extrapolation (averaged and per cell) of linear tensor fields on any cell shape
+        if fam in ("quad9", "hexahedron27"):
+            linear_tensor_clauses(run, rng, reg, mesh, fam, ((2, 3), HIGH[rep % 2]), "flags:extrapolate:quadratic", (fam, "flags", geo))
         # --- linear simplex regions: the one-point default rule is upgraded (documented), a second-order rule is used as is
         if fam in ("triangle", "tetra"):
             Q2 = (fem.TriangleQuadrature if fam == "triangle" else fem.TetrahedronQuadrature)(order=2)
@@ -152,6 +245,60 @@ def case_flags(fam, rep):
                 ref /= cnt.reshape(-1, *([1] * len(shape)))
                 run.compare(mon, "tool=topoints template=%s clause=single-quadrature-point" % fam, maxabs(tp.reshape(ref.shape) - ref), 1e-13,
                             "topoints() of one value per cell is not the mean over the attached cells", unit="flags:topoints:single-point", config=(fam, "topoints", "single", shape))
+                # the flags together with the upgraded rule: no averaging across cells (the projection of a cell constant on the cell's
+                # own space is that constant at its points), the second-order region per cell, and a measure given per cell
+                got = fem.project(data1, reg, average=False).reshape(nc, npc, *shape)
+                run.compare(mon, "tool=project template=%s clause=one-point-rule-upgrade,average=False" % fam, maxabs(got - cm1[:, None]) / maxabs(cm1), 1e-10,
+                            "project(average=False) of cell-constant data on the default one-point rule is not the cell's constant at each of its points",
+                            unit="flags:project:simplex:average=False", config=(fam, "project", "one-point", "average=False", shape))
+                got = fem.project(vq2, r2, average=False).reshape(nc, npc, *shape)
+                run.compare(mon, "tool=project template=%s clause=second-order-rule,average=False" % fam, maxabs(got - nodal[mesh.cells]) / maxabs(nodal), 1e-10,
+                            "project(average=False) on a linear simplex region with a second-order rule does not return the field's values at the points of every cell",
+                            unit="flags:project:simplex:average=False", config=(fam, "project", "order2", "average=False", shape))
+                wc = reg.dV * rng.uniform(0.5, 2, reg.dV.shape)  # (1, c): one weight per cell, as the region's own dV
+                pr = fem.project(data1, reg, dV=wc)
+                back = fem.Field(r2, dim=size, values=pr.reshape(mesh.npoints, size)).interpolate().reshape(*shape, Q2.npoints, nc)
+                i0 = (data1 * wc).sum((-2, -1))
+                i1 = (back.mean(-2) * wc[0]).sum(-1)  # (the points of the second-order rules carry equal weights)
+                run.compare(mon, "tool=project template=%s clause=one-point-rule-upgrade,dV-argument" % fam, maxabs(i1 - i0) / float((np.abs(data1) * wc).sum()), 1e-11,
+                            "project(dV=w) of cell-constant data on the default one-point rule does not preserve the sum of cell weight times cell mean",
+                            unit="flags:project:simplex:dV", config=(fam, "project", "one-point", "dV", shape))
+    return fn
+
+
+def case_simplex_upgrade(fam, rep):
+    """All six entries of project()'s table of upgraded rules: a region of every simplex element with a one-point rule (cell-constant
+    data): the projected field has the integral of the data, without averaging it is the cell's constant at the points of each cell."""
+    def fn(run):
+        import felupe as fem
+        rng = rng_for(run.seed, "C19", "simplex-upgrade", fam, rep)
+        mesh, _ = gen.build_mesh(fam, "affine", rng)
+        tri = mesh.dim == 2
+        Q = fem.TriangleQuadrature if tri else fem.TetrahedronQuadrature
+        r1 = gen.make_region(fam, mesh, quadrature=Q(order=1))
+        # the space judged with a rule that integrates it (second order for the linear elements, fifth order else: as documented)
+        rj = gen.make_region(fam, mesh, quadrature=Q(order=2 if fam in ("triangle", "tetra") else 5))
+        nc, npc = mesh.cells.shape
+        nb = 1 if gen.FAMILIES[fam].get("mini") else 0
+        for shape in ((), (2, 3)):
+            size = int(np.prod(shape)) if shape else 1
+            data1 = rng.standard_normal((*shape, 1, nc))
+            pr = fem.project(data1, r1)
+            back = fem.Field(rj, dim=size, values=pr.reshape(mesh.npoints, size)).interpolate().reshape(*shape, rj.quadrature.npoints, nc)
+            i0 = (data1 * r1.dV).sum((-2, -1))
+            i1 = (back * rj.dV).sum((-2, -1))
+            run.compare("post.flags", "tool=project template=%s[one-point rule] clause=rule-upgrade-integral" % fam, maxabs(i1 - i0) / float((np.abs(data1) * r1.dV).sum()), 1e-11,
+                        "project() of cell-constant data on a %s region with a one-point rule does not preserve the integral" % fam,
+                        unit="flags:project:upgrade:" + fam, config=(fam, "upgrade", "integral", shape))
+            cm1 = np.moveaxis(data1[..., 0, :], -1, 0)
+            ref = np.repeat(cm1[:, None], npc, axis=1)
+            if nb:
+                ref[:, -nb:] = 0.0  # a bubble is a hierarchical unknown: zero for a constant
+            got = fem.project(data1, r1, average=False).reshape(nc, npc, *shape)
+            # (the small bubble function makes the MINI spaces ill-conditioned: 1.5e-11 observed on tetraMINI, 3e-13 on the others)
+            run.compare("post.flags", "tool=project template=%s[one-point rule] clause=rule-upgrade,average=False" % fam, maxabs(got - ref) / maxabs(cm1), 1e-8 if nb else 1e-10,
+                        "project(average=False) of cell-constant data on a %s region with a one-point rule is not the cell's constant at its points" % fam,
+                        unit="flags:project:upgrade:average=False", config=(fam, "upgrade", "average=False", shape))
     return fn
 
 
@@ -180,10 +327,56 @@ def case_extrapolate_lagrange(rep):
                     run.compare("post.extrapolate", "template=GaussLegendre(permute=False) clause=reproduces-multilinear", maxabs(got_p - nodal_p) / max(maxabs(nodal_p), 1e-300),
                                 1e-10, "extrapolate() on a region whose rule is in tensor-product order (permute=False) does not reproduce a multilinear field",
                                 unit="extrapolate:permute=False", config=("extrapolate-permute-false", dim))
+                    # the operations that do not pair points with nodes are exact on that region (and tell a new error on this
+                    # template from the recorded one): the projection of an FE function and the means of the mean=True flag
+                    nodal_t, vq_t = fe_function(rng, rp, mp, None, (2, 3))
+                    run.compare("post.project", "template=GaussLegendre(permute=False) tool=project clause=reproduces-fe-function",
+                                maxabs(fem.project(vq_t, rp) - nodal_t) / maxabs(nodal_t), 1e-10,
+                                "project() on a region whose rule is in tensor-product order (permute=False) does not return the nodal values of an FE function",
+                                unit="project:permute=False", config=("project-permute-false", dim))
+                    data_t = rng.standard_normal(vq_t.shape)
+                    wq = rp.quadrature.weights
+                    ref_t = naive_points("topoints", np.repeat(((data_t * wq.reshape(-1, 1)).sum(-2) / wq.sum())[..., None, :], mp.cells.shape[1], axis=-2), rp)
+                    for name, fnc in (("extrapolate", fem.tools.extrapolate), ("project", fem.project), ("topoints", fem.topoints)):
+                        run.compare("post.flags", "tool=%s template=GaussLegendre(permute=False) clause=mean=True" % name, maxabs(fnc(data_t, rp, mean=True) - ref_t), 1e-13,
+                                    "%s(mean=True) on a region with a permute=False rule is not the mean over the attached cells of the weighted cell means" % name,
+                                    unit="flags:permute=False:mean=True", config=("mean-permute-false", name, dim))
                 grp = "order<=2" if order <= 2 else "order>=3"
                 run.compare("post.extrapolate", "template=RegionLagrange(%s) clause=reproduces-multilinear" % grp, maxabs(got - nodal) / max(maxabs(nodal), 1e-300), 1e-10,
                             "extrapolate() on a RegionLagrange of order %d (dim %d) does not reproduce a multilinear field at the points" % (order, dim),
                             unit="extrapolate:lagrange:" + grp, config=("extrapolate-lagrange", order, dim))
+                # ---- the arbitrary-order template in the other tools (all orders; these are exact, so that an error on an order >= 3
+                # region that is not the recorded one of extrapolate() gets its own key): on the box and on an affine image of it
+                lab = "RegionLagrange(order=%d,dim=%d)" % (order, dim)
+                if (rep + order) % 2:
+                    A, t = gen.random_affine(rng, dim)
+                    mesh = mesh.copy(points=mesh.points @ A.T + t)
+                    reg = fem.RegionLagrange(mesh, order=order, dim=dim)
+                nq, nc, npc = reg.quadrature.npoints, mesh.ncells, mesh.cells.shape[1]
+                for shape in ((2, 3),) if order > 1 else ((2, 3), HIGH[rep % 2]):
+                    size = int(np.prod(shape))
+                    nodal_t, vq_t = fe_function(rng, reg, mesh, None, shape)
+                    run.compare("post.project", "template=%s tool=project clause=reproduces-fe-function" % lab, maxabs(fem.project(vq_t, reg) - nodal_t) / maxabs(nodal_t), 1e-10,
+                                "project() of the quadrature values of an FE function does not return its nodal values (%s)" % lab,
+                                unit="project:reproduction:lagrange:" + grp, config=(lab, "project", shape))
+                    got_t = fem.project(vq_t, reg, average=False).reshape(nc, npc, *shape)
+                    run.compare("post.flags", "tool=project template=%s clause=average=False" % lab, maxabs(got_t - nodal_t[mesh.cells]) / maxabs(nodal_t), 1e-10,
+                                "project(average=False) does not return the field's values at the points of every cell (%s)" % lab,
+                                unit="flags:project:average=False:lagrange", config=(lab, "project", "average=False", shape))
+                    data = rng.standard_normal(vq_t.shape)
+                    pr = fem.project(data, reg)
+                    back = fem.Field(reg, dim=size, values=pr.reshape(mesh.npoints, size)).interpolate().reshape(data.shape)
+                    i0, i1 = (data * reg.dV).sum((-2, -1)), (back * reg.dV).sum((-2, -1))
+                    run.compare("post.project", "template=%s tool=project clause=integral-preserving" % lab, maxabs(i1 - i0) / float((np.abs(data) * reg.dV).sum()), 1e-11,
+                                "project() does not preserve the volume integral (%s)" % lab, unit="project:integral:lagrange:" + grp, config=(lab, "integral", shape))
+                    got_t = fem.topoints(data, reg, average=False).reshape(nc, npc, *shape)
+                    run.compare("post.flags", "tool=topoints template=%s clause=average=False" % lab, maxabs(got_t - np.moveaxis(np.moveaxis(data, -1, 0), -1, 1)), 1e-14,
+                                "topoints(average=False) does not move the quadrature-point values to the cell's points (%s)" % lab,
+                                unit="flags:topoints:average=False:lagrange", config=(lab, "topoints", "average=False", shape))
+                    run.compare("post.topoints", "template=%s clause=average" % lab, maxabs(fem.topoints(data, reg) - naive_points("topoints", data, reg)), 1e-13,
+                                "topoints(average) is not the mean over the attached cells (%s)" % lab, unit="topoints:average:lagrange", config=(lab, "topoints", shape))
+                if order <= 2:
+                    linear_tensor_clauses(run, rng, reg, mesh, lab, ((2, 3), HIGH[(rep + order) % 2]), "extrapolate:lagrange:tensor", (lab, "extrapolate"))
     return fn
 
 
@@ -204,14 +397,18 @@ def case_extrapolate(fam, rep):
                 got = fem.tools.extrapolate(fld.interpolate(), reg).ravel()
                 run.compare("post.extrapolate", "template=%s clause=reproduces-multilinear-polynomial" % fam, maxabs(got - f(mesh.points)) / max(maxabs(f(mesh.points)), 1e-300), 1e-11,
                             "extrapolate() does not reproduce a multilinear polynomial on a %s region" % fam, unit="extrapolate:" + fam, config=(fam, "extrapolate", k))
+            # tensor-valued linear fields, averaged and per cell (tensor orders 2 and 3 / 4)
+            linear_tensor_clauses(run, rng, reg, mesh, fam, ((2, 3), HIGH[rep % 2]), "extrapolate:" + fam + ":tensor", (fam, "extrapolate"))
             return
         # multilinear in the reference coordinates = any FE function of the (bi/tri)linear element; sample one given on the points
-        for shape in ((), (3,), (3, 3)):
+        for shape in ((), (3,), (3, 3), *HIGH):
             nodal, vq = fe_function(rng, reg, mesh, fam, shape)
             got = fem.tools.extrapolate(vq, reg)
             run.compare("post.extrapolate", "template=%s clause=reproduces-multilinear" % fam, maxabs(got.reshape(nodal.shape) - nodal) / maxabs(nodal), 1e-11,
                         "extrapolate() does not reproduce a multilinear field at the points (%s)" % fam, unit="extrapolate:" + fam,
                         config=(fam, "extrapolate", shape))
+            if len(shape) > 2:
+                run.units["extrapolate:tensor-order:%d" % len(shape)] += 1
         if rep % 3 == 0:
             f = p[0]
             fld = fem.Field(reg, dim=1, values=f(mesh.points).reshape(-1, 1))
@@ -229,7 +426,7 @@ def case_topoints(fam, rep):
         reg = gen.make_region(fam, mesh)
         nq, nc = reg.quadrature.npoints, mesh.ncells
         npc = mesh.cells.shape[1]
-        for shape in ((), (3,), (3, 3)):
+        for shape in ((), (3,), (3, 3), *HIGH):
             vals = rng.standard_normal((*shape, nq, nc))
             cnt = np.zeros(mesh.npoints)
             ref = np.zeros((mesh.npoints, *shape))
@@ -248,25 +445,276 @@ def case_topoints(fam, rep):
                 got = fem.topoints(vals, reg)
                 run.compare("post.topoints", "template=%s clause=average" % fam, maxabs(got - ref), 1e-13,
                             "topoints(average) is not the mean over the attached cells", unit="topoints:average", config=(fam, "average", shape))
+                if len(shape) > 2:
+                    run.units["topoints:tensor-order:%d" % len(shape)] += 1
             got2 = fem.topoints(vals, reg, mean=True)
             run.compare("post.topoints", "template=%s clause=mean" % fam, maxabs(got2 - ref2), 1e-13,
                         "topoints(mean=True) is not the mean over the attached cells of the cell means", unit="topoints:mean", config=(fam, "mean", shape))
     return fn
 
 
-def case_stress_and_views(kind, fam, rep):
+def case_cellless(which, fam, rep):
+    """Points without cells (the centre point of a multi-point constraint appended to the mesh, the mid-side points of a quadratic
+    mesh under a linear template): the tools return the named quantity at the points that have cells and numbers at the others."""
+    def fn(run):
+        import felupe as fem
+        rng = rng_for(run.seed, "C19", "cellless", which, fam, rep)
+        if which == "appended-point":
+            mesh, _ = gen.build_mesh(fam, "distorted", rng)
+            X = mesh.points
+            mesh = mesh.copy()
+            mesh.update(points=np.vstack([X, X.max(0) + 0.5 * np.ptp(X, axis=0)]))  # the documented way to add a centre point
+            reg = gen.make_region(fam, mesh)
+        else:
+            mesh, _ = gen.build_mesh({"quad": "quad8", "hexahedron": "hexahedron20"}[fam], "distorted", rng)
+            reg = gen.make_region(fam, mesh)  # the linear template takes the corner points of the quadratic cells
+        m = reg.mesh
+        cnt = attached_cells(m)
+        has = cnt > 0
+        if has.all():
+            raise RuntimeError("workload: the mesh has no point without cells")
+        nq, nc, npc = reg.quadrature.npoints, m.ncells, m.cells.shape[1]
+        lab = "%s[%s]" % (fam, which)
+        for shape in ((), (2, 3)):
+            size = int(np.prod(shape)) if shape else 1
+            vals = rng.standard_normal((m.npoints, size))
+            vq = fem.Field(reg, dim=size, values=vals).interpolate()
+            vq = vq.reshape(*shape, *vq.shape[1:])
+            nodal = vals.reshape(m.npoints, *shape)
+            data = rng.standard_normal(vq.shape)
+            wq = reg.quadrature.weights
+            cmq = np.repeat(((data * wq.reshape(-1, 1)).sum(-2) / wq.sum())[..., None, :], npc, axis=-2)
+            results = []
+            for name, fnc in (("project", fem.project), ("extrapolate", fem.tools.extrapolate)):
+                got = fnc(vq, reg).reshape(nodal.shape)
+                results.append(got)
+                run.compare("post.cellless", "tool=%s template=%s clause=reproduces-fe-function" % (name, lab), maxabs(got[has] - nodal[has]) / maxabs(nodal[has]), 1e-10,
+                            "%s() on a mesh with points without cells does not return the nodal values of an FE function at the points that have cells" % name,
+                            unit="cellless:%s:%s" % (which, name), config=(lab, name, shape))
+            got = fem.topoints(data, reg).reshape(nodal.shape)
+            results.append(got)
+            run.compare("post.cellless", "tool=topoints template=%s clause=average" % lab, maxabs(got[has] - naive_points("topoints", data, reg)[has]), 1e-13,
+                        "topoints(average) on a mesh with points without cells is not the mean over the attached cells", unit="cellless:%s:topoints" % which,
+                        config=(lab, "topoints", shape))
+            ref = naive_points("topoints", cmq, reg)
+            for name, fnc in (("extrapolate", fem.tools.extrapolate), ("project", fem.project), ("topoints", fem.topoints)):
+                got = fnc(data, reg, mean=True).reshape(nodal.shape)
+                results.append(got)
+                run.compare("post.cellless", "tool=%s template=%s clause=mean=True" % (name, lab), maxabs(got[has] - ref[has]), 1e-13,
+                            "%s(mean=True) on a mesh with points without cells is not the mean over the attached cells of the weighted cell means" % name,
+                            unit="cellless:%s:mean=True" % which, config=(lab, name, "mean", shape))
+            # the integral of arbitrary data is preserved (the fix-up of the matrix for the cell-less points must not touch the others)
+            pr = fem.project(data, reg)
+            results.append(pr)
+            back = fem.Field(reg, dim=size, values=pr.reshape(m.npoints, size)).interpolate().reshape(data.shape)
+            i0, i1 = (data * reg.dV).sum((-2, -1)), (back * reg.dV).sum((-2, -1))
+            run.compare("post.cellless", "tool=project template=%s clause=integral-preserving" % lab, maxabs(i1 - i0) / float((np.abs(data) * reg.dV).sum()), 1e-11,
+                        "project() on a mesh with points without cells does not preserve the volume integral", unit="cellless:%s:project" % which,
+                        config=(lab, "integral", shape))
+            # what is handed on (to a plot, a file) must be numbers at every point
+            bad = sum(int((~np.isfinite(r)).sum()) for r in results)
+            run.compare("post.cellless", "template=%s clause=finite-at-points-without-cells" % lab, float(bad), 0.0,
+                        "project / extrapolate / topoints return NaN or inf at points without cells", unit="cellless:finite", config=(lab, "finite", shape))
+    return fn
+
+
+def case_uniform(fam, rep):
+    """Regions built with uniform=True (a grid of identical cells: the geometry arrays are stored for one cell only)."""
+    def fn(run):
+        import felupe as fem
+        rng = rng_for(run.seed, "C19", "uniform", fam, rep)
+        geo = ["undistorted", "affine"][(rep + len(fam)) % 2]
+        mesh, _ = gen.build_mesh(fam, geo, rng)
+        ru = gen.make_region(fam, mesh, uniform=True)
+        r0 = gen.make_region(fam, mesh)  # the same region with all arrays per cell (for the integrals and gradients of the references)
+        if ru.dV.shape[-1] != 1:
+            raise RuntimeError("workload: the region is not stored as a uniform one")
+        nq, nc, npc = ru.quadrature.npoints, mesh.ncells, mesh.cells.shape[1]
+        d = mesh.dim
+        linear = fam in ("quad", "hexahedron")
+        mon = "post.uniform"
+        for shape in ((), (2, 3)):
+            size = int(np.prod(shape)) if shape else 1
+            nodal, vq = fe_function(rng, ru, mesh, fam, shape)
+            for name, fnc in (("project", fem.project), ("extrapolate", fem.tools.extrapolate)) if linear else (("project", fem.project),):
+                got = fnc(vq, ru).reshape(nodal.shape)
+                run.compare(mon, "tool=%s template=%s[uniform] clause=reproduces-fe-function" % (name, fam), maxabs(got - nodal) / maxabs(nodal), 1e-10,
+                            "%s() on a uniform=True region does not return the nodal values of an FE function" % name, unit="uniform:" + name, config=(fam, geo, name, shape))
+                got = fnc(vq, ru, average=False).reshape(nc, npc, *shape)
+                run.compare(mon, "tool=%s template=%s[uniform] clause=average=False" % (name, fam), maxabs(got - nodal[mesh.cells]) / maxabs(nodal), 1e-10,
+                            "%s(average=False) on a uniform=True region does not return the field's values at the points of every cell" % name,
+                            unit="uniform:%s:average=False" % name, config=(fam, geo, name, "average=False", shape))
+            data = rng.standard_normal(vq.shape)
+            pr = fem.project(data, ru)
+            back = fem.Field(r0, dim=size, values=pr.reshape(mesh.npoints, size)).interpolate().reshape(data.shape)
+            i0, i1 = (data * r0.dV).sum((-2, -1)), (back * r0.dV).sum((-2, -1))
+            run.compare(mon, "tool=project template=%s[uniform] clause=integral-preserving" % fam, maxabs(i1 - i0) / float((np.abs(data) * r0.dV).sum()), 1e-11,
+                        "project() on a uniform=True region does not preserve the volume integral", unit="uniform:project:integral", config=(fam, geo, "integral", shape))
+            run.compare(mon, "tool=project template=%s[uniform] clause=l2-projection" % fam, maxabs(pr - naive_points("project", data, r0)) / maxabs(data), 1e-10,
+                        "project() of arbitrary data on a uniform=True region is not the L2 projection on the region's space", unit="uniform:project:l2",
+                        config=(fam, geo, "l2", shape))
+            run.compare(mon, "tool=topoints template=%s[uniform] clause=average" % fam, maxabs(fem.topoints(data, ru) - naive_points("topoints", data, r0)), 1e-13,
+                        "topoints(average) on a uniform=True region is not the mean over the attached cells", unit="uniform:topoints", config=(fam, geo, "topoints", shape))
+            wq = ru.quadrature.weights
+            cmq = np.repeat(((data * wq.reshape(-1, 1)).sum(-2) / wq.sum())[..., None, :], npc, axis=-2)
+            ref = naive_points("topoints", cmq, r0)
+            for name, fnc in (("extrapolate", fem.tools.extrapolate), ("project", fem.project), ("topoints", fem.topoints)):
+                run.compare(mon, "tool=%s template=%s[uniform] clause=mean=True" % (name, fam), maxabs(fnc(data, ru, mean=True).reshape(ref.shape) - ref), 1e-13,
+                            "%s(mean=True) on a uniform=True region is not the mean over the attached cells of the weighted cell means" % name,
+                            unit="uniform:mean=True", config=(fam, geo, name, "mean", shape))
+        # ---- a body on the uniform region: F from the gradients of the per-cell region, P from the material law itself
+        mu = float(rng.uniform(0.5, 2))
+        lm = float(rng.uniform(1, 4))
+        fu = fem.FieldContainer([(fem.Field if d == 3 else fem.FieldPlaneStrain)(ru, dim=d)])
+        fu[0].values[:] = gen.random_displacement(rng, mesh, grad=0.25)
+        F = np.einsum("aic,ajqc->ijqc", fu[0].values[mesh.cells].transpose(1, 2, 0), r0.dhdX)
+        F3 = np.zeros((3, 3, nq, nc))
+        F3[:d, :d] = F
+        F3 += np.eye(3).reshape(3, 3, 1, 1)
+        run.compare(mon, "view=field[uniform] key=Deformation Gradient clause=cell-mean",
+                    maxabs(np.asarray(fu.view().mesh.cell_data["Deformation Gradient"]).reshape(nc, 3, 3) - np.moveaxis(F3.mean(-2), -1, 0)) / maxabs(F3), 1e-13,
+                    "view cell data 'Deformation Gradient' of a field on a uniform=True region is not the quadrature mean of F_ij", unit="uniform:view:Deformation Gradient",
+                    config=(fam, geo, "view-F"))
+        solid = fem.SolidBody(fem.NeoHookeCompressible(mu=mu, lmbda=lm), fu)
+        P = fem.NeoHookeCompressible(mu=mu, lmbda=lm).gradient([F3, None])[0]
+        J = np.linalg.det(np.moveaxis(F3, (0, 1), (-2, -1)))
+        sig = np.einsum("ik...,jk...->ij...", P, F3) / J
+        run.compare(mon, "item=SolidBody[uniform] clause=cauchy", maxabs(solid.evaluate.cauchy_stress(fu) - sig) / maxabs(sig), 1e-12,
+                    "cauchy_stress of a body on a uniform=True region != P F^T / det F", unit="uniform:stress:cauchy", config=(fam, geo, "cauchy"))
+        voigt = np.array([sig.mean(-2)[i, j] for i, j in VOIGT]).T
+        run.compare(mon, "view=solid[uniform] key=Cauchy Stress clause=cell-mean", maxabs(np.asarray(solid.view().mesh.cell_data["Cauchy Stress"]) - voigt) / maxabs(voigt), 1e-12,
+                    "view cell data 'Cauchy Stress' of a body on a uniform=True region is not the mean stress in Voigt storage", unit="uniform:view:Cauchy Stress",
+                    config=(fam, geo, "view-cauchy"))
+    return fn
+
+
+def material(rng, which, mu0):
+    """A factory of one of the laws of C01's list with moduli in units of mu0 (every call builds a new object with the same parameters: the
+    references evaluate their own copy of the law, never the one inside the body under test)."""
+    import felupe as fem
+    a, b = float(rng.uniform(0.5, 2)), float(rng.uniform(1, 5))
+    if which == "NeoHooke":
+        return lambda: fem.NeoHooke(mu=a * mu0, bulk=b * mu0)
+    if which == "NeoHookeCompressible":
+        return lambda: fem.NeoHookeCompressible(mu=a * mu0, lmbda=b * mu0)
+    if which == "Yeoh(tensortrax)":
+        return lambda: fem.Hyperelastic(fem.yeoh, C10=0.5 * mu0, C20=-0.05 * mu0, C30=0.02 * mu0) & fem.Volumetric(bulk=(1 + b) * mu0)
+    if which == "MooneyRivlin(jax)":
+        def mk():
+            import felupe.constitution.jax as fj
+            return fj.Hyperelastic(fj.models.hyperelastic.mooney_rivlin, C10=0.4 * mu0, C01=0.2 * mu0) & fem.Volumetric(bulk=3.0 * mu0)
+        return mk
+    if which == "SaintVenantKirchhoff(tensortrax)":
+        return lambda: fem.Hyperelastic(fem.saint_venant_kirchhoff, mu=a * mu0, lmbda=b * mu0)
+    if which == "OgdenRoxburgh":
+        return lambda: fem.OgdenRoxburgh(fem.NeoHooke(mu=a * mu0, bulk=3.0 * mu0), r=3.0, m=1.0 * mu0, beta=0.1)
+    if which == "LinearElasticLargeStrain":
+        return lambda: fem.LinearElasticLargeStrain(E=2.0 * mu0, nu=0.3)
+    if which == "Yeoh(isochoric)":
+        return lambda: fem.Hyperelastic(fem.yeoh, C10=0.5 * mu0, C20=-0.05 * mu0, C30=0.02 * mu0)
+    raise KeyError(which)
+
+
+def make_field(kind, fam, rng, scale=1.0):
+    """A field container of the given kind on a distorted mesh of the family, the body scaled to the length unit."""
+    import felupe as fem
+    mesh, _ = gen.build_mesh(fam, "distorted", rng)
+    mesh = mesh.copy(points=mesh.points * scale)
+    if kind == "axisymmetric":
+        # keep the body away from the axis, in units of its own size
+        size = float(np.ptp(mesh.points[:, 1]))
+        mesh = mesh.copy(points=mesh.points + np.array([0.0, 1.5 * size - mesh.points[:, 1].min()]))
+    reg = gen.make_region(fam, mesh)
+    if kind == "3d":
+        return fem.FieldContainer([fem.Field(reg, dim=3)]), mesh, reg
+    if kind == "2d":
+        return fem.FieldContainer([fem.Field(reg, dim=2)]), mesh, reg  # a plain two-dimensional field: 2x2 tensors
+    if kind == "planestrain":
+        return fem.FieldContainer([fem.FieldPlaneStrain(reg, dim=2)]), mesh, reg
+    if kind == "axisymmetric":
+        return fem.FieldContainer([fem.FieldAxisymmetric(reg, dim=2)]), mesh, reg
+    if kind == "mixed":
+        return fem.FieldsMixed(reg, n=3), mesh, reg
+    raise KeyError(kind)
+
+
+def set_state(rng, field, amp=0.25, mu0=1.0):
+    """A smooth displacement state with |grad u| <= ~amp (plus nodal noise in proportion), in units of the body; the pressure and
+    volume-ratio unknowns of mixed containers in units of the modulus and in proportion to the amplitude (0.3 and 0.1 at 0.25: a small state
+    is small in all its fields, else the deviatoric results are differences of large numbers)."""
+    mesh = field.region.mesh
+    field[0].values[:] = gen.random_displacement(rng, mesh, grad=amp, noise=0.04 * amp)
+    if zlib.crc32(np.ascontiguousarray(field[0].values).tobytes()) % 4 == 0:
+        # the same values stored column-wise: the memory layout of a value array carries no meaning (decided by the values)
+        field[0].values = np.asfortranarray(field[0].values)
+    if len(field.fields) > 1:
+        field[1].values[:] = 1.2 * amp * mu0 * rng.standard_normal(field[1].values.shape)
+    if len(field.fields) > 2:
+        field[2].values[:] = 1 + 0.4 * amp * rng.standard_normal(field[2].values.shape)
+
+
+def draw_state(rng, field, lo, hi, tries=20):
+    """Another displacement state with det F >= 0.2 everywhere (redrawn, never dropped); returns F and det F."""
+    mesh = field.region.mesh
+    for _ in range(tries):
+        field[0].values[:] = gen.random_displacement(rng, mesh, grad=float(rng.uniform(lo, hi)))
+        F = field.extract()[0]
+        J = np.linalg.det(np.moveaxis(F, (0, 1), (-2, -1)))
+        if J.min() >= 0.2:
+            return F, J
+    return None, None
+
+
+def case_stress_and_views(kind, fam, rep, ki=0, tier="quick"):
     def fn(run):
         import felupe as fem
         rng = rng_for(run.seed, "C19", "views", kind, fam, rep)
-        field, mesh, reg = C01.make_field(kind, fam, "distorted", rng)
-        C01.random_state(rng, field, grad=0.25)
-        ni = rep % 2 == 1
+        # length unit, modulus and displacement amplitude by the indices of the case: every clause is judged relative to its own
+        # reference, so an absolute threshold anywhere between the field and the reported number shows in one of the units
+        L = LENGTHS[(ki + rep) % 3]
+        mu0 = MODULI[(ki + 2 * rep) % 3]
+        small = (2 * ki + rep) % 5 == 2
+        amp = 1e-6 if small else 0.25
+        field, mesh, reg = make_field(kind, fam, rng, L)
+        set_state(rng, field, amp, mu0)
+        ni = rep % 2 == 1 and kind != "mixed"
         if ni:
-            solid = fem.SolidBodyNearlyIncompressible(fem.NeoHooke(mu=1.0), field, bulk=float(rng.uniform(5, 50)))
+            bulk = float(rng.uniform(5, 50)) * mu0
+            if (rep // 2) % 2:
+                mk, mname = material(rng, "Yeoh(isochoric)", mu0), "NI(Yeoh)"
+            else:
+                mk, mname = (lambda: fem.NeoHooke(mu=1.0 * mu0)), "NI(NeoHooke)"
+            solid = fem.SolidBodyNearlyIncompressible(mk(), field, bulk=bulk)
+        elif kind == "mixed":
+            mname = ("NeoHooke", "NeoHookeCompressible", "Yeoh(tensortrax)")[rep % 3]
+            inner = material(rng, mname, mu0)
+            mk = lambda: fem.ThreeFieldVariation(inner())
+            solid = fem.SolidBody(mk(), field)
         else:
-            solid = fem.SolidBody(C01.materials(rng, C01.MATS[rep % 4]), field)
+            mname = MATS[(ki + rep // 2) % len(MATS)]
+            if tier == "quick" and "jax" in mname:
+                mname = "SaintVenantKirchhoff(tensortrax)"  # (the compile time of the jax law is spent in the thorough tier only)
+            mk = material(rng, mname, mu0)
+            solid = fem.SolidBody(mk(), field)
+        run.units["stress:length-unit:%g" % L] += 1
+        run.units["stress:modulus:%g" % mu0] += 1
+        run.units["stress:material:" + mname] += 1
+        run.units["stress:field:" + kind] += 1
+
+        def first_pk(cont):
+            """P of a container's state from a law object of the reference's own: a fresh body for the plain one; for the condensed body
+            the closed form P = P_iso(F) + p J F^-T with the body's pressure state of that very call (p, J are state variables)."""
+            Fc = cont.extract()[0]
+            if ni:
+                Jc = np.linalg.det(np.moveaxis(Fc, (0, 1), (-2, -1)))
+                cof = Jc * np.moveaxis(np.linalg.inv(np.moveaxis(Fc, (0, 1), (-2, -1))), (-2, -1), (1, 0))
+                return mk().gradient([Fc, None])[0] + np.asarray(solid.results.state.p) * cof
+            other = copy.deepcopy(cont)
+            return fem.SolidBody(mk(), other).evaluate.gradient(other)[0]
+
         F = field.extract()[0]
         P = solid.evaluate.gradient(field)[0]
+        d = P.shape[0]
         J = np.linalg.det(np.moveaxis(F, (0, 1), (-2, -1)))
         tau_ref = np.einsum("ik...,jk...->ij...", P, F)
         lab = type(solid).__name__
@@ -275,6 +723,20 @@ def case_stress_and_views(kind, fam, rep):
         if P.shape[0] == 3:
             run.compare("post.stress", "item=%s clause=cauchy" % lab, maxabs(solid.evaluate.cauchy_stress(field) - tau_ref / J) / maxabs(tau_ref / J), 1e-13,
                         "cauchy_stress != P F^T / det F", unit="stress:cauchy", config=(lab, kind, "cauchy"))
+        else:
+            # a plain two-dimensional field has no thickness stretch: the evaluator says so (a warning) and reports P F^T
+            with warnings.catch_warnings(record=True) as caught:
+                warnings.simplefilter("always")
+                got = solid.evaluate.cauchy_stress(field)
+            told = any("Kirchhoff" in str(wn.message) for wn in caught)
+            run.compare("post.stress", "item=%s clause=cauchy-of-a-2d-field" % lab, maxabs(got - tau_ref) / maxabs(tau_ref) if told else np.inf, 1e-13,
+                        "cauchy_stress of a plain 2d field is not the announced fall-back P F^T (or the fall-back is not announced)", unit="stress:cauchy:2d",
+                        config=(lab, kind, "cauchy-2d"))
+        # the stress of the state is the one of the law itself (an own copy of the law; the condensed body with its pressure state)
+        Pi = first_pk(field)
+        run.compare("post.stress", "item=%s clause=stress-of-the-law" % lab, maxabs(P - Pi) / maxabs(Pi), 1e-12,
+                    "the first Piola-Kirchhoff stress behind the reported stresses is not the one of the material law at this state",
+                    unit="stress:law", config=(lab, kind, mname, "law"))
         # ---- the reported stress belongs to the field handed in, whatever the body evaluated before (stale cached kinematics)
         vals0 = field[0].values.copy()
         for it in range(3):
@@ -298,11 +760,18 @@ def case_stress_and_views(kind, fam, rep):
             run.compare("post.stress", "item=%s clause=%s-after-state-change" % (lab, first), maxabs(got - ref2) / maxabs(ref2), 1e-13,
                         "%s_stress(field) evaluated first after the field changed is not P F^T%s of that field" % (first, " / det F" if first == "cauchy" else ""),
                         unit="stress:%s:after-state-change" % first, config=(lab, kind, first, "after-state-change"))
+            # ... and with a P that is not read back from the body: the law evaluated by the reference at F of this field (for the
+            # condensed body together with the pressure of this call): a stale or incomplete P in the body shows here
+            Pi2 = first_pk(field) if ni else fem.SolidBody(mk(), field).evaluate.gradient(field)[0]
+            refi = np.einsum("ik...,jk...->ij...", Pi2, F2) / (J2 if first == "cauchy" else 1.0)
+            run.compare("post.stress", "item=%s clause=%s-after-state-change[law]" % (lab, first), maxabs(got - refi) / maxabs(refi), 1e-12,
+                        "%s_stress(field) evaluated first after the field changed is not built from the stress of the law at that field" % first,
+                        unit="stress:after-state-change:law" + (":ni" if ni else ""), config=(lab, kind, first, "after-state-change-law"))
         # ---- the evaluators without a field argument report the state of the last assembly (as after a Newton step)
-        field[0].values[:] = gen.random_displacement(rng, mesh, grad=float(rng.uniform(0.1, 0.3)))
-        F3 = field.extract()[0]
-        J3 = np.linalg.det(np.moveaxis(F3, (0, 1), (-2, -1)))
-        if J3.min() >= 0.2:
+        F3, J3 = draw_state(rng, field, 0.1, 0.3)
+        if F3 is None:
+            run.skip("post.stress", "no state with det F >= 0.2 in 20 draws")
+        else:
             solid.assemble.vector(field)
             if ni:
                 solid.assemble.vector(field)
@@ -313,31 +782,36 @@ def case_stress_and_views(kind, fam, rep):
             if P3.shape[0] == 3:
                 run.compare("post.stress", "item=%s clause=cauchy-without-field" % lab, maxabs(solid.evaluate.cauchy_stress() - tau3 / J3) / maxabs(tau3 / J3), 1e-13,
                             "cauchy_stress() after an assembly is not P F^T / det F of the assembled state", unit="stress:no-field-argument")
-            if not ni and P3.shape[0] == 3:
+            if not ni:
                 # view of the first Piola-Kirchhoff stress (stress_type=None): cell means of P itself
                 try:
                     cdP = np.asarray(solid.view(stress_type=None).mesh.cell_data["Stress"])
-                except Exception as exc:
+                except KeyError as exc:  # (a refusal of the stress type; anything else is an error of the case)
                     run.skip("post.view", "ViewSolid(stress_type=None) not available: " + type(exc).__name__)
                 else:
                     Pm = P3.mean(-2)
-                    if cdP.shape[1] == 9:
-                        refP = np.moveaxis(Pm, -1, 0).reshape(mesh.ncells, 9)
+                    if cdP.shape[1] == d * d:
+                        refP = np.moveaxis(Pm, -1, 0).reshape(mesh.ncells, d * d)
                     else:
-                        refP = np.array([Pm[i, j] for i, j in VOIGT]).T
+                        refP = np.array([Pm[i, j] for i, j in (VOIGT if d == 3 else VOIGT2)]).T
                     run.compare("post.view", "view=solid key=Stress clause=cell-mean", maxabs(cdP - refP) / maxabs(refP), 1e-12,
                                 "view cell data 'Stress' (stress_type=None) is not the quadrature mean of the first Piola-Kirchhoff stress",
                                 unit="view:Stress[first Piola-Kirchhoff]", config=(lab, kind, "view-P"))
         field[0].values[:] = vals0
         solid.evaluate.gradient(field)
         # ---- view data (what is handed to pyvista)
+        voigt_ij = VOIGT if d == 3 else VOIGT2
         Fm = F.mean(-2)  # i j c
         C = np.einsum("ki...,kj...->ij...", F, F)
         w, N = np.linalg.eigh(np.moveaxis(C, (0, 1), (-2, -1)))
         E = np.einsum("...a,...ia,...ja->...ij", np.log(w) / 2, N, N)  # q c i j
         Em = E.mean(0)
-        strain_voigt = np.array([Em[:, i, j] * (1 if i == j else 2) for i, j in VOIGT]).T
+        strain_voigt = np.array([Em[:, i, j] * (1 if i == j else 2) for i, j in voigt_ij]).T
         princ = (np.log(w) / 2).mean(0)  # c, ascending
+        # strains of 1e-6 are differences of numbers of order one: their round-off is eps / strain (the large states keep their bound)
+        tol_e = max(1e-11, 1e3 * EPS / max(maxabs(strain_voigt), 1e-300))
+        if small:
+            run.units["stress:small-amplitude"] += 1
         # point data of the same named quantity (project=...): component [p, i, j] of the projected tensor
         if kind == "3d" and not ni and field.region.quadrature.npoints >= mesh.cells.shape[1]:
             vp = field.view(project=fem.topoints)
@@ -356,39 +830,51 @@ def case_stress_and_views(kind, fam, rep):
                         config=("view-single-cell", kind))
         vf = field.view()
         cd = vf.mesh.cell_data
-        got = np.asarray(cd["Deformation Gradient"]).reshape(mesh.ncells, 3, 3)
+        got = np.asarray(cd["Deformation Gradient"]).reshape(mesh.ncells, d, d)
         ref = np.moveaxis(Fm, -1, 0)  # c i j
         run.compare("post.view", "view=field key=Deformation Gradient clause=cell-mean", maxabs(got - ref) / maxabs(ref), 1e-13,
                     "view cell data 'Deformation Gradient'[c, i, j] is not the quadrature mean of F_ij", unit="view:Deformation Gradient",
                     config=("view", kind, "F"), sample={"key": "Deformation Gradient", "cell0": got[0].tolist(), "mean F cell0": ref[0].tolist()})
         run.compare("post.view", "view=field key=Logarithmic Strain clause=cell-mean", maxabs(np.asarray(cd["Logarithmic Strain"]) - strain_voigt) / max(maxabs(strain_voigt), 1e-300),
-                    1e-11, "view cell data 'Logarithmic Strain' is not the mean logarithmic strain in Voigt storage (engineering shear)",
+                    tol_e, "view cell data 'Logarithmic Strain' is not the mean logarithmic strain in Voigt storage (engineering shear)",
                     unit="view:Logarithmic Strain", config=("view", kind, "log-strain"))
         run.compare("post.view", "view=field key=Principal Values of Logarithmic Strain clause=cell-mean",
-                    maxabs(np.sort(np.asarray(cd["Principal Values of Logarithmic Strain"]), axis=1) - np.sort(princ, axis=1)) / max(maxabs(princ), 1e-300), 1e-11,
+                    maxabs(np.sort(np.asarray(cd["Principal Values of Logarithmic Strain"]), axis=1) - np.sort(princ, axis=1)) / max(maxabs(princ), 1e-300), tol_e,
                     "view cell data 'Principal Values of Logarithmic Strain' are not the mean principal logarithmic strains",
                     unit="view:Principal Values of Logarithmic Strain", config=("view", kind, "princ"))
         pdisp = np.asarray(vf.mesh.point_data["Displacement"])
         u3 = np.pad(field[0].values, ((0, 0), (0, 3 - field[0].values.shape[1])))
         run.compare("post.view", "view=field key=Displacement clause=point-data", maxabs(pdisp - u3), 0.0, "view point data 'Displacement' differs from the field values",
                     unit="view:Displacement")
-        if P.shape[0] == 3:
-            for st, sref in (("Cauchy", tau_ref / J), ("Kirchhoff", tau_ref)):
-                vs = solid.view(stress_type=st)
-                cds = vs.mesh.cell_data
-                sm = sref.mean(-2)
-                voigt = np.array([sm[i, j] for i, j in VOIGT]).T
-                run.compare("post.view", "view=solid key=%s Stress clause=cell-mean" % st, maxabs(np.asarray(cds["%s Stress" % st]) - voigt) / maxabs(voigt), 1e-12,
-                            "view cell data '%s Stress' is not the mean stress in Voigt storage" % st, unit="view:%s Stress" % st, config=("view", kind, st))
-                pv = np.linalg.eigvalsh(np.moveaxis((sref + np.swapaxes(sref, 0, 1)) / 2, (0, 1), (-2, -1))).mean(0)
-                run.compare("post.view", "view=solid key=Principal Values of %s Stress clause=cell-mean" % st,
-                            maxabs(np.sort(np.asarray(cds["Principal Values of %s Stress" % st]), axis=1) - np.sort(pv, axis=1)) / maxabs(pv), 1e-10,
-                            "view cell data 'Principal Values of %s Stress' are not the mean principal stresses" % st, unit="view:Principal Values of %s Stress" % st)
-                dev = sref - np.trace(sref) / 3 * np.eye(3).reshape(3, 3, 1, 1)
-                vm = np.sqrt(1.5 * (dev ** 2).sum((0, 1))).mean(0)
-                run.compare("post.view", "view=solid key=Equivalent of %s Stress clause=cell-mean" % st,
-                            maxabs(np.asarray(cds["Equivalent of %s Stress" % st]).ravel() - vm) / maxabs(vm), 1e-12,
-                            "view cell data 'Equivalent of %s Stress' is not the mean von Mises stress" % st, unit="view:Equivalent of %s Stress" % st)
+        eye = np.eye(d).reshape(d, d, 1, 1)
+
+        def stress_items(sref):
+            """(Voigt components, principal values ascending, von Mises equivalent) at the quadrature points, by their definitions (a
+            2x2 tensor is a 3x3 one with a zero third row and column for the equivalent stress)."""
+            sv = np.array([sref[i, j] for i, j in voigt_ij])
+            pv = np.moveaxis(np.linalg.eigvalsh(np.moveaxis((sref + np.swapaxes(sref, 0, 1)) / 2, (0, 1), (-2, -1))), -1, 0)
+            dev = sref - np.trace(sref) / 3 * eye
+            vm = np.sqrt(1.5 * ((dev ** 2).sum((0, 1)) + (0 if d == 3 else (np.trace(sref) / 3) ** 2)))
+            return sv, pv, vm
+
+        stypes = (("Cauchy", tau_ref / J), ("Kirchhoff", tau_ref)) if d == 3 else (("Kirchhoff", tau_ref),)
+        for st, sref in stypes:
+            vs = solid.view(stress_type=st)
+            cds = vs.mesh.cell_data
+            sv, pvq, vmq = stress_items(sref)
+            voigt = sv.mean(-2).T
+            run.compare("post.view", "view=solid key=%s Stress clause=cell-mean" % st, maxabs(np.asarray(cds["%s Stress" % st]) - voigt) / maxabs(voigt), 1e-12,
+                        "view cell data '%s Stress' is not the mean stress in Voigt storage" % st, unit="view:%s Stress" % st, config=("view", kind, st))
+            pv = pvq.mean(-2).T
+            run.compare("post.view", "view=solid key=Principal Values of %s Stress clause=cell-mean" % st,
+                        maxabs(np.sort(np.asarray(cds["Principal Values of %s Stress" % st]), axis=1) - np.sort(pv, axis=1)) / maxabs(pv), 1e-10,
+                        "view cell data 'Principal Values of %s Stress' are not the mean principal stresses" % st, unit="view:Principal Values of %s Stress" % st)
+            vm = vmq.mean(0)
+            run.compare("post.view", "view=solid key=Equivalent of %s Stress clause=cell-mean" % st,
+                        maxabs(np.asarray(cds["Equivalent of %s Stress" % st]).ravel() - vm) / maxabs(vm), 1e-12,
+                        "view cell data 'Equivalent of %s Stress' is not the mean von Mises stress" % st, unit="view:Equivalent of %s Stress" % st)
+            if d == 2:
+                run.units["view:2d-tensors"] += 1
         # point data of the named stress / strain (project=...): the projected Voigt components
         if kind == "3d" and P.shape[0] == 3 and not ni and field.region.quadrature.npoints >= mesh.cells.shape[1]:
             sig = tau_ref / J
@@ -400,47 +886,206 @@ def case_stress_and_views(kind, fam, rep):
             vfp = field.view(project=fem.topoints)
             Evq = np.array([np.moveaxis(E, (0, 1), (-2, -1))[i, j] * (1 if i == j else 2) for i, j in VOIGT])  # (6, q, c)
             refe = fem.topoints(Evq, field.region)
-            run.compare("post.view", "view=field[project] key=Logarithmic Strain clause=point-values", maxabs(np.asarray(vfp.mesh.point_data["Logarithmic Strain"]) - refe) / max(maxabs(refe), 1e-300), 1e-10,
+            run.compare("post.view", "view=field[project] key=Logarithmic Strain clause=point-values", maxabs(np.asarray(vfp.mesh.point_data["Logarithmic Strain"]) - refe) / max(maxabs(refe), 1e-300), max(1e-10, tol_e),
                         "view point data 'Logarithmic Strain' (project=topoints) are not the projected Voigt components (engineering shear)", unit="view:Logarithmic Strain:points")
+        # ---- all six keys of the projected point data, for the three callables the docstrings name, both stress types, every field
+        # kind and body: the references move the quantities to the points with loops / dense algebra of their own (naive_points)
+        nqf, npc = field.region.quadrature.npoints, mesh.cells.shape[1]
+        tools = []
+        if fam in ("quad", "hexahedron"):
+            tools = [("project", fem.project), ("extrapolate", fem.tools.extrapolate), ("topoints", fem.topoints)]
+        elif fam in ("quad8", "hexahedron20"):
+            tools = [("project", fem.project), ("topoints", fem.topoints)]  # (extrapolate refuses them loudly; topoints trims as documented)
+        Eq = np.moveaxis(E, (0, 1), (-2, -1))  # i j q c
+        Evq = np.array([Eq[i, j] * (1 if i == j else 2) for i, j in voigt_ij])
+        Epq = np.moveaxis(np.log(w) / 2, -1, 0)  # (d, q, c) ascending
+        for ti, (tname, tfn) in enumerate(tools):
+            st, sref = stypes[(ti + rep) % len(stypes)]
+            pdv = solid.view(project=tfn, stress_type=st).mesh.point_data
+            sv, pvq, vmq = stress_items(sref)
+            refs = {"%s Stress" % st: (naive_points(tname, sv, reg), 1e-10),
+                    "Principal Values of %s Stress" % st: (naive_points(tname, pvq, reg), 1e-10),
+                    "Equivalent of %s Stress" % st: (naive_points(tname, vmq, reg), 1e-10),
+                    "Deformation Gradient": (naive_points(tname, F, reg).reshape(mesh.npoints, d * d), 1e-10),
+                    "Logarithmic Strain": (naive_points(tname, Evq, reg), max(1e-10, 10 * tol_e)),
+                    "Principal Values of Logarithmic Strain": (naive_points(tname, Epq, reg), max(1e-10, 10 * tol_e))}
+            for key, (refk, tolk) in refs.items():
+                gotk = np.asarray(pdv[key]).reshape(refk.shape)
+                err = maxabs(gotk - refk)
+                if key.startswith("Principal"):
+                    err = min(err, maxabs(gotk - refk[:, ::-1]))  # (the order of the principal values is not part of the statement)
+                run.compare("post.view", "view=solid[project=%s] key=%s clause=point-values" % (tname, key), err / max(maxabs(refk), 1e-300), tolk,
+                            "view point data '%s' (project=%s) are not the named quantity moved to the points by that operation" % (key, tname),
+                            unit="view:points:%s:%s" % (tname, key.replace(st + " ", "")), config=("view-points", kind, lab, tname, st, key))
         # ---- the job's export functions
         from felupe.mechanics import _job as JB
         run.compare("post.job", "function=deformation_gradient clause=cell-mean", maxabs(JB.deformation_gradient(field)[0] - ref) / maxabs(ref), 1e-13,
                     "job export 'Deformation Gradient' is not the per-cell mean of F", unit="job:Deformation Gradient")
-        run.compare("post.job", "function=log_strain clause=cell-mean", maxabs(JB.log_strain(field)[0] - strain_voigt) / max(maxabs(strain_voigt), 1e-300), 1e-11,
+        run.compare("post.job", "function=log_strain clause=cell-mean", maxabs(JB.log_strain(field)[0] - strain_voigt) / max(maxabs(strain_voigt), 1e-300), tol_e,
                     "job export 'Logarithmic Strain' is not the per-cell mean logarithmic strain (Voigt)", unit="job:Logarithmic Strain")
-        run.compare("post.job", "function=log_strain_principal clause=cell-mean", maxabs(JB.log_strain_principal(field)[0] - princ[:, ::-1]) / max(maxabs(princ), 1e-300), 1e-11,
+        run.compare("post.job", "function=log_strain_principal clause=cell-mean", maxabs(JB.log_strain_principal(field)[0] - princ[:, ::-1]) / max(maxabs(princ), 1e-300), tol_e,
                     "job export 'Principal Values of Logarithmic Strain' are not the per-cell mean principal strains (descending)",
                     unit="job:Principal Values of Logarithmic Strain")
         run.compare("post.job", "function=displacement clause=point-data", maxabs(JB.displacement(field) - u3), 0.0, "job export 'Displacement' differs", unit="job:Displacement")
+        # ---- the two documented arguments of ViewSolid are two objects: a container that is not the body's own one, in another
+        # state (last block of the case: the body keeps the container it evaluated last)
+        other = copy.deepcopy(field)
+        Fo, Jo = draw_state(rng, other, 0.1, 0.3)
+        if Fo is None:
+            run.skip("post.view", "no state with det F >= 0.2 in 20 draws")
+            return
+        st = ("Cauchy", "Kirchhoff")[rep % 2] if d == 3 else "Kirchhoff"
+        cdo = fem.ViewSolid(other, solid, stress_type=st).mesh.cell_data
+        Po = first_pk(other)  # (after the call: the condensed body's pressure state is the one of that call)
+        so = np.einsum("ik...,jk...->ij...", Po, Fo) / (Jo if st == "Cauchy" else 1.0)
+        sv, pvq, vmq = stress_items(so)
+        run.compare("post.view", "view=solid[foreign container] key=%s Stress clause=cell-mean" % st, maxabs(np.asarray(cdo["%s Stress" % st]) - sv.mean(-2).T) / maxabs(sv), 1e-11,
+                    "ViewSolid(container, solid): cell data '%s Stress' is not the mean stress of the state of the container handed in" % st,
+                    unit="view:foreign-container", config=("view-foreign", kind, lab, st))
+        run.compare("post.view", "view=solid[foreign container] key=Equivalent of %s Stress clause=cell-mean" % st,
+                    maxabs(np.asarray(cdo["Equivalent of %s Stress" % st]).ravel() - vmq.mean(0)) / maxabs(vmq), 1e-11,
+                    "ViewSolid(container, solid): cell data 'Equivalent of %s Stress' is not the mean von Mises stress of the container handed in" % st,
+                    unit="view:foreign-container", config=("view-foreign", kind, lab, st, "vm"))
+        run.compare("post.view", "view=solid[foreign container] key=Deformation Gradient clause=cell-mean",
+                    maxabs(np.asarray(cdo["Deformation Gradient"]).reshape(mesh.ncells, d, d) - np.moveaxis(Fo.mean(-2), -1, 0)) / maxabs(Fo), 1e-13,
+                    "ViewSolid(container, solid): cell data 'Deformation Gradient' is not the mean F of the container handed in",
+                    unit="view:foreign-container", config=("view-foreign", kind, lab, "F"))
     return fn
 
 
 def case_force_moment(rep):
     def fn(run):
         import felupe as fem
+        import scipy.sparse as sp
         rng = rng_for(run.seed, "C19", "force", rep)
-        for kind, fam in (("3d", "hexahedron"), ("planestrain", "quad"), ("mixed", "hexahedron")):
-            field, mesh, reg = C01.make_field(kind, fam, "distorted", rng)
-            C01.random_state(rng, field)
+        for ki, (kind, fam) in enumerate((("3d", "hexahedron"), ("planestrain", "quad"), ("mixed", "hexahedron"))):
+            # the body in its length unit, the forces in theirs (N on a part of micrometres, MN on one of hundreds of metres)
+            L = LENGTHS[(ki + rep) % 3]
+            f0 = (1.0, 2e9, 3e-7)[(ki + 2 * rep + 1) % 3]
+            run.units["force:length-unit:%g" % L] += 1
+            run.units["force:force-unit:%g" % f0] += 1
+            field, mesh, reg = make_field(kind, fam, rng, L)
+            set_state(rng, field, 0.2)
             d = field[0].dim
             n = int(np.sum(field.fieldsizes))
-            forces = rng.standard_normal(n)
+            forces = f0 * rng.standard_normal(n)
             X = mesh.points
             b = fem.Boundary(field[0], fx=lambda x: x > np.median(X[:, 0]))
             Fr = fem.tools.force(field, forces, b)
             fr = forces[: mesh.npoints * d].reshape(-1, d)[b.points]
-            run.compare("post.force", "clause=force-sum", maxabs(Fr - fr.sum(0)), 1e-13, "tools.force is not the sum of nodal forces over the boundary's points",
+            run.compare("post.force", "clause=force-sum", maxabs(Fr - fr.sum(0)) / f0, 1e-13, "tools.force is not the sum of nodal forces over the boundary's points",
                         unit="force", config=(kind, "force"))
-            import scipy.sparse as sp
             Fs = fem.tools.force(field, sp.csr_matrix(forces.reshape(-1, 1)), b)
-            run.compare("post.force", "clause=force-sum-sparse", maxabs(np.ravel(Fs) - fr.sum(0)), 1e-13, "tools.force (sparse input) differs", unit="force")
+            run.compare("post.force", "clause=force-sum-sparse", maxabs(np.ravel(Fs) - fr.sum(0)) / f0, 1e-13, "tools.force (sparse input) differs", unit="force")
             if d == 3:
-                cp = rng.standard_normal(3)
+                cp = L * rng.standard_normal(3)
                 M = fem.tools.moment(field, forces, b, centerpoint=cp)
                 xr = (X + field[0].values)[b.points] - cp
                 run.compare("post.force", "clause=moment-sum", maxabs(M - np.cross(xr, fr).sum(0)) / max(maxabs(M), 1e-300), 1e-12,
                             "tools.moment is not the sum of position-cross-force over the boundary's points", unit="moment", config=(kind, "moment"))
+                # the other documented forms of the arguments: the default centre (the origin), a centre given as a list, the force
+                # vector as the sparse or dense column an assembly returns
+                x0 = (X + field[0].values)[b.points]
+                M0 = np.cross(x0, fr).sum(0)
+                for form, got in (("default-centre", fem.tools.moment(field, forces, b)),
+                                  ("list-centre", fem.tools.moment(field, forces, b, centerpoint=[float(c) for c in cp])),
+                                  ("sparse-forces", fem.tools.moment(field, sp.csr_matrix(forces.reshape(-1, 1)), b, centerpoint=cp)),
+                                  ("column-forces", fem.tools.moment(field, forces.reshape(-1, 1), b, centerpoint=cp))):
+                    refm = M0 if form == "default-centre" else np.cross(xr, fr).sum(0)
+                    run.compare("post.force", "clause=moment-sum[%s]" % form, maxabs(np.ravel(got) - refm) / max(maxabs(refm), 1e-300), 1e-12,
+                                "tools.moment (%s) is not the sum of position-cross-force over the boundary's points" % form, unit="moment:argument-forms",
+                                config=(kind, "moment", form))
     return fn
+
+
+def case_api_surface(rep):
+    """Documented forms of the arguments that no other case passes: value arrays in another memory layout / dtype, the stress type that
+    Solid.plot(name) reads from the name of the plotted quantity, the strain evaluators of a container with an own stretch function."""
+    def fn(run):
+        import felupe as fem
+        rng = rng_for(run.seed, "C19", "api", rep)
+        fam = ("hexahedron", "quad")[rep % 2]
+        mesh, _ = gen.build_mesh(fam, "distorted", rng)
+        reg = gen.make_region(fam, mesh)
+        nq, nc, npc = reg.quadrature.npoints, mesh.ncells, mesh.cells.shape[1]
+        # ---- the same numbers stored column-wise, as a strided view of a larger buffer, as integers and in single precision
+        shape = (2, 3)
+        base = np.round(4 * rng.standard_normal((*shape, nq, nc)))  # (integers: exact in every dtype)
+        big = rng.standard_normal((*shape, 2 * nq, nc + 3))
+        big[..., ::2, :nc] = base
+        forms = (("fortran-order", np.asfortranarray(base)), ("strided-view", big[..., ::2, :nc]), ("integer", base.astype(np.int64)),
+                 ("float32", base.astype(np.float32)))
+        for tname, tfn in (("project", fem.project), ("extrapolate", fem.tools.extrapolate), ("topoints", fem.topoints)):
+            ref = naive_points(tname, base, reg)
+            tol = {"project": 1e-10, "extrapolate": 1e-11, "topoints": 1e-13}[tname]
+            for form, arr in forms:
+                if tname == "topoints" and form in ("integer", "float32"):
+                    continue  # (topoints(average=True) refuses other dtypes than float64 loudly)
+                got = tfn(arr, reg)
+                run.compare("post.api", "tool=%s values=%s clause=same-result" % (tname, form), maxabs(got - ref) / maxabs(ref), tol,
+                            "%s() of the same numbers in another memory layout / dtype (%s) is not the named quantity" % (tname, form),
+                            unit="api:values:" + form, config=("api", fam, tname, form))
+        # ---- Solid.plot(name): the stress type is the one the name says (the scene is not rendered: the plot method of the view
+        # is replaced by a recorder of the view's own cell data)
+        field = fem.FieldContainer([(fem.Field if mesh.dim == 3 else fem.FieldPlaneStrain)(reg, dim=mesh.dim)])
+        set_state(rng, field, 0.25)
+        mk = material(rng, ("NeoHooke", "NeoHookeCompressible")[rep % 2], 1.0)
+        solid = fem.SolidBody(mk(), field)
+        F = field.extract()[0]
+        P = mk().gradient([F, None])[0]
+        J = np.linalg.det(np.moveaxis(F, (0, 1), (-2, -1)))
+        tau = np.einsum("ik...,jk...->ij...", P, F)
+        seen = []
+
+        def recorder(self, name=None, *args, **kwargs):
+            seen.append((name, np.array(self.mesh.cell_data[name], copy=True)))
+            return self
+
+        had = "plot" in vars(fem.ViewSolid)
+        old = vars(fem.ViewSolid).get("plot")
+        fem.ViewSolid.plot = recorder
+        try:
+            for st, sref in (("Cauchy", tau / J), ("Kirchhoff", tau), ("", P)):
+                label = ("%s Stress" % st).strip()
+                sym = (sref + np.swapaxes(sref, 0, 1)) / 2
+                dev = sref - np.trace(sref) / 3 * np.eye(3).reshape(3, 3, 1, 1)
+                refs = {label: np.array([sref.mean(-2)[i, j] for i, j in VOIGT]).T,
+                        "Equivalent of " + label: np.sqrt(1.5 * (dev ** 2).sum((0, 1))).mean(0)}
+                if st:
+                    refs["Principal Values of " + label] = np.sort(np.linalg.eigvalsh(np.moveaxis(sym, (0, 1), (-2, -1))).mean(0), axis=1)
+                for name, refn in refs.items():
+                    del seen[:]
+                    solid.plot(name)
+                    got = seen[0][1].reshape(refn.shape)
+                    if name.startswith("Principal"):
+                        got = np.sort(got, axis=1)
+                    run.compare("post.api", "call=Solid.plot(name) name=%s clause=cell-mean-of-the-named-stress" % name, maxabs(got - refn) / maxabs(refn), 1e-11,
+                                "Solid.plot('%s') shows cell data that are not the quadrature means of the stress the name says" % name,
+                                unit="api:plot-name", config=("api", fam, "plot", name))
+        finally:
+            if had:
+                fem.ViewSolid.plot = old
+            else:
+                del fem.ViewSolid.plot
+        # ---- the strain evaluators behind the views
+        C = np.einsum("ki...,kj...->ij...", F, F)
+        w, N = np.linalg.eigh(np.moveaxis(C, (0, 1), (-2, -1)))
+        lam = np.sqrt(w)
+        run.compare("post.api", "function=right_cauchy_green_deformation clause=F^T F", maxabs(field.evaluate.right_cauchy_green_deformation() - C) / maxabs(C), 1e-13,
+                    "field.evaluate.right_cauchy_green_deformation() is not F^T F", unit="api:evaluate", config=("api", fam, "C"))
+        a = float(rng.uniform(0.5, 2))
+        refE = np.moveaxis(np.einsum("...a,...ia,...ja->...ij", a * (lam - 1 / lam), N, N), (-2, -1), (0, 1))
+        gotE = field.evaluate.strain(fun=lambda stretch, a: a * (stretch - 1 / stretch), a=a)
+        run.compare("post.api", "function=strain(fun=callable) clause=spectral-sum", maxabs(gotE - refE) / maxabs(refE), 1e-11,
+                    "field.evaluate.strain(fun=f, **kwargs) is not sum_a f(lambda_a) N_a x N_a", unit="api:evaluate", config=("api", fam, "strain-fun"))
+        gotp = np.sort(np.moveaxis(field.evaluate.log_strain(tensor=False), 0, -1), axis=-1)
+        run.compare("post.api", "function=log_strain(tensor=False) clause=principal-values", maxabs(gotp - np.sort(np.log(lam), axis=-1)) / maxabs(np.log(lam)), 1e-11,
+                    "field.evaluate.log_strain(tensor=False) are not the logarithms of the principal stretches", unit="api:evaluate", config=("api", fam, "log-principal"))
+    return fn
+
+
+VIEW_KINDS = (("3d", "hexahedron"), ("3d", "tetra10"), ("planestrain", "quad"), ("axisymmetric", "quad8"), ("3d", "hexahedron20"), ("2d", "quad"),
+              ("mixed", "hexahedron"))
 
 
 def cases(tier, seed):
@@ -457,14 +1102,26 @@ def cases(tier, seed):
             out.append(("topoints:%s:%d" % (fam, rep), case_topoints(fam, rep)))
     for rep in range(reps):
         out.append(("extrapolate-lagrange:%d" % rep, case_extrapolate_lagrange(rep)))
-    for kind, fam in (("3d", "hexahedron"), ("3d", "tetra10"), ("planestrain", "quad"), ("axisymmetric", "quad8"), ("3d", "hexahedron20")):
+    for ki, (kind, fam) in enumerate(VIEW_KINDS):
         for rep in range(2 * reps):
-            out.append(("views:%s:%s:%d" % (kind, fam, rep), case_stress_and_views(kind, fam, rep)))
+            out.append(("views:%s:%s:%d" % (kind, fam, rep), case_stress_and_views(kind, fam, rep, ki, tier)))
     for rep in range(reps):
         out.append(("force:%d" % rep, case_force_moment(rep)))
-    for fam in ("quad", "hexahedron", "quad9", "hexahedron20", "triangle", "tetra", "triangleMINI", "tetraMINI"):
+    for fam in ("quad", "hexahedron", "quad9", "hexahedron20", "triangle", "tetra", "triangleMINI", "tetraMINI", "hexahedron27"):
         for rep in range(reps):
             out.append(("flags:%s:%d" % (fam, rep), case_flags(fam, rep)))
+    for fam in ("triangle", "tetra", "triangleMINI", "tetraMINI", "triangle6", "tetra10"):
+        for rep in range(reps):
+            out.append(("simplex-upgrade:%s:%d" % (fam, rep), case_simplex_upgrade(fam, rep)))
+    for which in ("appended-point", "sliced-template"):
+        for fam in ("quad", "hexahedron"):
+            for rep in range(reps):
+                out.append(("cellless:%s:%s:%d" % (which, fam, rep), case_cellless(which, fam, rep)))
+    for fam in ("quad", "hexahedron", "quad9", "hexahedron20"):
+        for rep in range(reps):
+            out.append(("uniform:%s:%d" % (fam, rep), case_uniform(fam, rep)))
+    for rep in range(2 * reps):
+        out.append(("api:%d" % rep, case_api_surface(rep)))
     return out
 
 
@@ -477,12 +1134,43 @@ SPEC = {
                        "stress:kirchhoff", "stress:cauchy", "stress:cauchy:after-state-change", "stress:kirchhoff:after-state-change", "view:Deformation Gradient", "view:Logarithmic Strain",
                        "view:Principal Values of Logarithmic Strain", "view:Displacement", "view:Cauchy Stress", "view:Kirchhoff Stress",
                        "view:Principal Values of Cauchy Stress", "view:Equivalent of Cauchy Stress", "job:Deformation Gradient",
-                       "job:Logarithmic Strain", "job:Principal Values of Logarithmic Strain", "job:Displacement", "force", "moment"],
-    "rule": ("projection on 10 region templates (distorted / curved / affine meshes) of random FE functions of tensor order 0..2 and of "
-             "arbitrary quadrature data (integral clause); extrapolation on Gauss-Legendre quad/hex regions; topoints average/mean; stress "
-             "evaluators and all default view / job cell-data keys for SolidBody and the nearly-incompressible body in 3D, plane strain and "
-             "axisymmetric states; force / moment sums; a configuration is distinct by (operation, template or field kind, tensor shape)"),
+                       "job:Logarithmic Strain", "job:Principal Values of Logarithmic Strain", "job:Displacement", "force", "moment",
+                       # third audit: tensor orders 3 and 4 in every tool
+                       "project:tensor-order:3", "project:tensor-order:4", "extrapolate:tensor-order:3", "extrapolate:tensor-order:4", "topoints:tensor-order:3",
+                       "topoints:tensor-order:4", "flags:tensor-order:3", "flags:tensor-order:4",
+                       # tensor-valued / per-cell extrapolation on three points per axis, the other tools on RegionLagrange and permute=False
+                       "extrapolate:quad9:tensor", "extrapolate:hexahedron27:tensor", "extrapolate:hexahedron27:tensor:average=False", "extrapolate:lagrange:tensor",
+                       "flags:extrapolate:quadratic", "project:reproduction:lagrange:order<=2", "project:reproduction:lagrange:order>=3", "project:integral:lagrange:order>=3",
+                       "flags:project:average=False:lagrange", "flags:topoints:average=False:lagrange", "project:permute=False", "flags:permute=False:mean=True",
+                       # simplex regions: flags together with the upgraded rule, all six entries of the table
+                       "flags:project:simplex:average=False", "flags:project:simplex:dV", "flags:project:upgrade:average=False", "flags:project:upgrade:triangle",
+                       "flags:project:upgrade:tetra", "flags:project:upgrade:triangleMINI", "flags:project:upgrade:tetraMINI", "flags:project:upgrade:triangle6",
+                       "flags:project:upgrade:tetra10",
+                       # points without cells, uniform regions
+                       "cellless:appended-point:project", "cellless:appended-point:extrapolate", "cellless:appended-point:topoints", "cellless:appended-point:mean=True",
+                       "cellless:sliced-template:project", "cellless:sliced-template:extrapolate", "cellless:sliced-template:topoints", "cellless:sliced-template:mean=True",
+                       "cellless:finite", "uniform:project", "uniform:project:average=False", "uniform:project:integral", "uniform:project:l2", "uniform:extrapolate",
+                       "uniform:topoints", "uniform:mean=True", "uniform:stress:cauchy", "uniform:view:Deformation Gradient", "uniform:view:Cauchy Stress",
+                       # stress / view cases: field kinds, units, laws, references that are not read back, projected point data, foreign container
+                       "stress:field:2d", "stress:field:mixed", "stress:cauchy:2d", "view:2d-tensors", "stress:law", "stress:after-state-change:law",
+                       "stress:after-state-change:law:ni", "stress:length-unit:3e-06", "stress:length-unit:250", "stress:modulus:2e+09", "stress:modulus:3e-07",
+                       "stress:small-amplitude", "stress:material:NeoHooke", "stress:material:NeoHookeCompressible", "stress:material:Yeoh(tensortrax)",
+                       "stress:material:OgdenRoxburgh", "stress:material:LinearElasticLargeStrain", "stress:material:NI(NeoHooke)", "view:foreign-container",
+                       *["view:points:%s:%s" % (t, k) for t in ("project", "extrapolate", "topoints")
+                         for k in ("Stress", "Principal Values of Stress", "Equivalent of Stress", "Deformation Gradient", "Logarithmic Strain", "Principal Values of Logarithmic Strain")],
+                       "force:length-unit:3e-06", "force:length-unit:250", "force:force-unit:2e+09", "force:force-unit:3e-07", "moment:argument-forms",
+                       "api:values:fortran-order", "api:values:strided-view", "api:values:integer", "api:values:float32", "api:plot-name", "api:evaluate"],
+    "rule": ("projection on 10 region templates (distorted / curved / affine meshes), RegionLagrange(1..4) and permute=False regions of random FE functions of "
+             "tensor order 0..4 and of arbitrary quadrature data (integral clause); extrapolation on Gauss-Legendre quad/hex regions (tensor-valued, averaged and "
+             "per cell); topoints average/mean; the average / mean / dV flags incl. the upgraded simplex rules; meshes with points without cells and uniform=True "
+             "regions; stress evaluators and all default view / job cell-data keys, the projected point data of the three documented callables and a foreign "
+             "container for SolidBody (six laws), the mixed three-field body and the nearly-incompressible body on 3D, plane-strain, axisymmetric and plain 2D "
+             "fields, in three length units, three modulus units and at amplitudes 0.25 and 1e-6; force / moment sums in these units and argument forms; a "
+             "configuration is distinct by (operation, template or field kind, tensor shape)"),
     "assumptions": ["rendering is not observed, only the data arrays handed to pyvista", "principal values are compared as sets per cell (the view "
-                    "stores them ascending, the job export descending)"],
+                    "stores them ascending, the job export descending)",
+                    "values at points without cells are only required to be finite (the statement speaks of the attached cells)",
+                    "the first Piola-Kirchhoff stress of the condensed body is judged by the closed form P_iso(F) + p J F^-T with the pressure state of that call "
+                    "(p, J are state variables of the body by design)"],
     "jobs": {"quick": 8, "thorough": 16},
 }
